@@ -1,3 +1,103 @@
+/-
+C16 (iv) driver: the rewrite functions of Verif.C16.Rewrite on expressions in a prefix
+token encoding (shared with harness/cmd/c16apply, which runs the real
+astutil.NegateDeMorgan / astutil.SimplifyParentheses on the same expressions).
+
+  v N | n I | t | f | c F e | p P e e | ( e | ! e | && e e | || e e | == != < <= > >= e e | + e e | / e e
+
+  rw negdm <0|1> e      -> encoding of negDM
+  rw simplify e         -> encoding of simplify
+  rw s1002 <==|!=> <t|f> e   -> encoding of the S1002 replacement
+  rw qf1001 <0|1> <0|1> <0|1> e  -> encoding of the QF1001 replacement of `!e`, or "none"
+-/
+import Verif.C16.Rewrite
 namespace Verif.C16.Rw
-def step (_ : List String) : String := "bad-op"
+
+def parseCmp : String → Option CmpOp
+  | "==" => some .eq | "!=" => some .ne | "<" => some .lt | "<=" => some .le | ">" => some .gt | ">=" => some .ge
+  | _ => none
+
+def parseExpr : Nat → List String → Option (Expr × List String)
+  | 0, _ => none
+  | _ + 1, [] => none
+  | fuel + 1, tok :: rest =>
+    match tok with
+    | "t" => some (.lit (.bool true), rest)
+    | "f" => some (.lit (.bool false), rest)
+    | "v" => match rest with
+      | n :: r => n.toNat?.map fun n => (.var n, r)
+      | [] => none
+    | "n" => match rest with
+      | n :: r => n.toInt?.map fun n => (.lit (.int n), r)
+      | [] => none
+    | "c" => match rest with
+      | f :: r => do
+        let f ← f.toNat?
+        let (a, r) ← parseExpr fuel r
+        pure (.call f a, r)
+      | [] => none
+    | "p" => match rest with
+      | p :: r => do
+        let p ← p.toNat?
+        let (a, r) ← parseExpr fuel r
+        let (b, r) ← parseExpr fuel r
+        pure (.prim p a b, r)
+      | [] => none
+    | "(" => do let (e, r) ← parseExpr fuel rest; pure (.paren e, r)
+    | "!" => do let (e, r) ← parseExpr fuel rest; pure (.not e, r)
+    | "&&" => do let (a, r) ← parseExpr fuel rest; let (b, r) ← parseExpr fuel r; pure (.and a b, r)
+    | "||" => do let (a, r) ← parseExpr fuel rest; let (b, r) ← parseExpr fuel r; pure (.or a b, r)
+    | "+" => do let (a, r) ← parseExpr fuel rest; let (b, r) ← parseExpr fuel r; pure (.add a b, r)
+    | "/" => do let (a, r) ← parseExpr fuel rest; let (b, r) ← parseExpr fuel r; pure (.div a b, r)
+    | op => do
+      let op ← parseCmp op
+      let (a, r) ← parseExpr fuel rest
+      let (b, r) ← parseExpr fuel r
+      pure (.cmp op a b, r)
+
+def showCmp : CmpOp → String
+  | .eq => "==" | .ne => "!=" | .lt => "<" | .le => "<=" | .gt => ">" | .ge => ">="
+
+def showExpr : Expr → String
+  | .lit (.bool true) => "t"
+  | .lit (.bool false) => "f"
+  | .lit (.int n) => s!"n {n}"
+  | .var x => s!"v {x}"
+  | .call f a => s!"c {f} {showExpr a}"
+  | .prim p a b => s!"p {p} {showExpr a} {showExpr b}"
+  | .paren e => s!"( {showExpr e}"
+  | .not e => s!"! {showExpr e}"
+  | .and a b => s!"&& {showExpr a} {showExpr b}"
+  | .or a b => s!"|| {showExpr a} {showExpr b}"
+  | .cmp op a b => s!"{showCmp op} {showExpr a} {showExpr b}"
+  | .add a b => s!"+ {showExpr a} {showExpr b}"
+  | .div a b => s!"/ {showExpr a} {showExpr b}"
+
+def parseAll (ts : List String) : Option Expr :=
+  match parseExpr (ts.length + 1) ts with
+  | some (e, []) => some e
+  | _ => none
+
+def flag : String → Option Bool
+  | "1" => some true | "0" => some false | _ => none
+
+def step : List String → String
+  | "negdm" :: r :: ts =>
+    match flag r, parseAll ts with
+    | some r, some e => showExpr (negDM r e)
+    | _, _ => "bad-op"
+  | "simplify" :: ts =>
+    match parseAll ts with
+    | some e => showExpr (simplify e)
+    | none => "bad-op"
+  | "s1002" :: op :: v :: ts =>
+    match parseCmp op, (if v = "t" then some true else if v = "f" then some false else none), parseAll ts with
+    | some op, some v, some e => match s1002 op v e with | some e' => showExpr e' | none => "none"
+    | _, _, _ => "bad-op"
+  | "qf1001" :: r :: si :: pa :: ts =>
+    match flag r, flag si, flag pa, parseAll ts with
+    | some r, some si, some pa, some e => match qf1001 r si pa e with | some e' => showExpr e' | none => "none"
+    | _, _, _, _ => "bad-op"
+  | _ => "bad-op"
+
 end Verif.C16.Rw
